@@ -20,7 +20,7 @@ for diff in $D/*.diff; do
     cd $V && PCFG_REPO=$SC PCFG_OUT=$OUT timeout 1200 ./check $prop --tier quick > /tmp/sc_T15_run.log 2>&1
     last=$(grep -E -- '-> (OK|VIOLATION)' /tmp/sc_T15_run.log | tail -1)
     echo "$name: $last" | tee -a $D/RESULTS_raw.txt
-    grep -E 'VIOLATION|KNOWN-FINDING|broken|no longer|refuse' /tmp/sc_T15_run.log | grep -v -- '-> ' | cut -c1-420 | head -5 | sed 's/^/    /' | tee -a $D/RESULTS_raw.txt
+    grep -E 'VIOLATION|KNOWN-FINDING|broken|no longer|refuse' /tmp/sc_T15_run.log | grep -v -E -- '-> (OK|VIOLATION)' | cut -c1-420 | head -5 | sed 's/^/    /' | tee -a $D/RESULTS_raw.txt
   done
 done
 git -C /repo worktree remove --force $SC
